@@ -68,7 +68,7 @@ Proof. exact (@handle_requested V). Qed.
 (* CACHE.  The end of a successful poll writes the document of the whole new state, once - or
    nothing at all when nothing changed (then the store is unchanged too) ... *)
 Theorem C11_flush : forall w : world V, In (ORes true) (snd (step w EEnd)) ->
-  (exists k, snd (step w EEnd) = OFlush (doc (wst (fst (step w EEnd)))) :: repeat (ORes true) (S k))
+  (exists k, snd (step w EEnd) = OFlush (doc (wst (fst (step w EEnd)))) :: repeat (ORes true) k)
   \/ (wst (fst (step w EEnd)) = wst w /\ forall d, ~ In (OFlush d) (snd (step w EEnd))).
 Proof. exact (@poll_flush V). Qed.
 
@@ -92,8 +92,46 @@ Theorem C11_failure : forall (w0 : world V) now mid mid1 n f u mid2 e,
   mid = mid1 ++ EReq n f u :: mid2 -> (forall f' u', ~ In (EReq n f' u') mid1) ->
   (f = true \/ find n (srv_after (wsv w0) mid1) = None) ->
   let wk := run_w w0 (ERefresh now :: mid) in
-  wst (fst (step wk EEnd)) = wst wk /\ exists k, snd (step wk EEnd) = repeat (ORes false) (S k).
+  wst (fst (step wk EEnd)) = wst wk /\ exists k, snd (step wk EEnd) = repeat (ORes false) k.
 Proof. exact (@poll_failure V). Qed.
+
+(* CONTEXTS.  Every Refresh caller has its own context; the LEADER's context governs the poll's
+   requests (the flight function captures it, store.go:291-295).  Callers of a flight are numbered
+   in order of arrival, 0 = leader; `ECancel k` = the context of caller k ends.  `mid` in all the
+   theorems above ranges over lists that may contain such events at any place.
+
+   If the leader's context ends while some live name has not been requested yet, the poll fails for
+   everybody still waiting - whatever happens afterwards (more requests, joiners arriving, service
+   changes) - and nothing is applied. *)
+Theorem C11_leader_cancelled : forall (w0 : world V) now mid mid1 mid2 n e,
+  Inv (wst w0) -> wfl w0 = None -> no_end mid ->
+  entry (wst w0) n = Some e -> flagged (wst w0) now n = false ->
+  mid = mid1 ++ ECancel 0 :: mid2 -> (forall f' u', ~ In (EReq n f' u') mid1) ->
+  let wk := run_w w0 (ERefresh now :: mid) in
+  wst (fst (step wk EEnd)) = wst wk /\ exists k, snd (step wk EEnd) = repeat (ORes false) k.
+Proof. exact (@poll_cancelled V). Qed.
+
+(* a caller whose context ends returns its context error at once (if it is still waiting) and
+   disturbs nothing: store, service, snapshot, collected answers, number of callers *)
+Theorem C11_cancel_inert : forall (w : world V) k,
+  wst (fst (step w (ECancel k))) = wst w /\ wsv (fst (step w (ECancel k))) = wsv w /\
+  (snd (step w (ECancel k)) = [] \/ snd (step w (ECancel k)) = [OCtx]) /\
+  match wfl w, wfl (fst (step w (ECancel k))) with
+  | Some fl, Some fl' => fsnap fl' = fsnap fl /\ finst fl' = finst fl /\ fjoin fl' = fjoin fl
+  | None, None => True
+  | _, _ => False
+  end.
+Proof. exact (@cancel_inert V). Qed.
+
+(* every caller still waiting at the end of a poll gets ONE verdict, computed by `finish` from the
+   answers collected: an error comes with an untouched store and no write, so - with C11_fresh,
+   which describes the store after a nil - no caller (leader or joiner, whoever was cancelled
+   meanwhile) is told success by a poll that applied only part of what it collected *)
+Theorem C11_one_verdict : forall (w : world V) fl, wfl w = Some fl ->
+  exists fx ok, snd (step w EEnd) = flush_out fx ++ repeat (ORes ok) (waiting fl) /\
+                finish (wst w) fl = (wst (fst (step w EEnd)), fx, ok) /\
+                (ok = false -> wst (fst (step w EEnd)) = wst w /\ fx = []).
+Proof. exact (@one_verdict V). Qed.
 
 (* CONVERGENCE.  A later poll against a quiescent service that serves every known name succeeds
    and leaves exactly the service's active (version, bytes) in the store, for every name. *)
@@ -116,8 +154,8 @@ Proof. exact (@reachable_Inv V). Qed.
    neither store, service, snapshot nor the answers collected; at the end the leader and all
    joiners receive one and the same result.  Requests are emitted by request events only. *)
 Theorem C11_coalesced : forall (st : store V) sv fl now,
-  step (WD st sv (Some fl)) (ERefresh now) = (WD st sv (Some (FL (fsnap fl) (finst fl) (S (fjoin fl)))), [])
-  /\ exists fx ok, snd (step (WD st sv (Some fl)) EEnd) = flush_out fx ++ repeat (ORes ok) (S (fjoin fl)).
+  step (WD st sv (Some fl)) (ERefresh now) = (WD st sv (Some (FL (fsnap fl) (finst fl) (S (fjoin fl)) (fgone fl))), [])
+  /\ exists fx ok, snd (step (WD st sv (Some fl)) EEnd) = flush_out fx ++ repeat (ORes ok) (waiting fl).
 Proof. exact (@coalesced V). Qed.
 
 Theorem C11_requests_only_from_reqs : forall (w : world V) e old r, In (OReq old r) (snd (step w e)) ->
@@ -147,6 +185,9 @@ Print Assumptions C11_flush.
 Print Assumptions C11_cache_exact.
 Print Assumptions C11_all_or_nothing.
 Print Assumptions C11_failure.
+Print Assumptions C11_leader_cancelled.
+Print Assumptions C11_cancel_inert.
+Print Assumptions C11_one_verdict.
 Print Assumptions C11_converges.
 Print Assumptions C11_reachable_Inv.
 Print Assumptions C11_coalesced.
@@ -174,6 +215,19 @@ Proof. vm_compute. repeat split; reflexivity. Qed.
 Example ex_fail : let wk := run_w ex_w0 [ERefresh 946684900000000000%Z; ESrv (SSet ex_b 2 21); EReq ex_b false false; EReq ex_a true false] in
   snd (step wk EEnd) = [ORes false] /\ wst (fst (step wk EEnd)) = wst ex_w0.
 Proof. vm_compute. split; reflexivity. Qed.
+(* the leader's context ends after a's request (b's update is pending): the leader gets its context
+   error at once, b's request then fails, the joiner gets the poll error, nothing is applied *)
+Example ex_cancel : let '(wk, outs) := run ex_w0 [ERefresh 946684900000000000%Z; ESrv (SSet ex_b 2 21); ERefresh 5%Z;
+                                                  EReq ex_a false false; ECancel 0; EReq ex_b false false] in
+  outs = [[]; []; []; [OReq (Some 1) RNotChanged]; [OCtx]; [OReq (Some 1) RErr]] /\
+  snd (step wk EEnd) = [ORes false] /\ wst (fst (step wk EEnd)) = wst ex_w0.
+Proof. vm_compute. repeat split; reflexivity. Qed.
+(* a JOINER's context ends: it alone gets its context error, the poll goes on and succeeds *)
+Example ex_cancel_joiner : let '(wk, outs) := run ex_w0 [ERefresh 946684900000000000%Z; ESrv (SSet ex_b 2 21); ERefresh 5%Z;
+                                                         ECancel 1; EReq ex_a false false; EReq ex_b false false] in
+  nth 3 outs [] = [OCtx] /\ In (ORes true) (snd (step wk EEnd)) /\ length (snd (step wk EEnd)) = 2%nat /\
+  vv (wst (fst (step wk EEnd))) ex_b = Some (2, 21).
+Proof. vm_compute. repeat split; auto. Qed.
 (* the cadence monitor: accepts 1h-4.2min spacing, rejects a +50% period and an uneven one *)
 Example ex_cad_ok : cadence_ok 3600 0 [3400; 6800; 10200]%Z = true. Proof. reflexivity. Qed.
 Example ex_cad_bad1 : cadence_ok 3600 0 [5400; 10800]%Z = false. Proof. reflexivity. Qed.
